@@ -114,8 +114,14 @@ func (l *lexer) emitUppercase(t tokenType) {
 func (l *lexer) emitSpaceRemoved(t tokenType) {
 	line, col := l.lineColumn()
 	val := make([]rune, 0, l.pos-l.start)
-	for _, r := range l.input[l.start:l.pos] {
-		if !unicode.IsSpace(r) {
+	inComment := false
+	for i, r := range l.input[l.start:l.pos] {
+		if strings.HasPrefix(l.input[l.start+i:l.pos], "//") {
+			inComment = true // a line comment inside the token ends with its line
+		} else if r == '\n' {
+			inComment = false
+		}
+		if !unicode.IsSpace(r) && !inComment {
 			val = append(val, r)
 		}
 	}
@@ -353,24 +359,41 @@ func lexComment(l *lexer) stateFn {
 	return l.lastState
 }
 
+// skipSizeBlanks skips what may separate the parts of a data item's size: blanks,
+// line breaks, and - because a line may end there - a line comment before a line break.
+func (l *lexer) skipSizeBlanks() {
+	for {
+		l.acceptRun(" \t\r\n")
+		if !strings.HasPrefix(l.input[l.pos:], "//") {
+			return
+		}
+		i := strings.Index(l.input[l.pos:], "\n")
+		if i < 0 {
+			l.pos = len(l.input)
+			return
+		}
+		l.pos += i
+	}
+}
+
 // lexDataItemSize scans a data item's size, e.g. [2] or [2..7].
 // The left square bracket is known to be present.
 func lexDataItemSize(l *lexer) stateFn {
 	numberFound := false
 	l.accept("[")
-	l.acceptRun(" \t\r\n")
+	l.skipSizeBlanks()
 	if l.accept("0123456789") {
 		numberFound = true
 		l.acceptRun("0123456789")
-		l.acceptRun(" \t\r\n")
+		l.skipSizeBlanks()
 	}
 	if strings.HasPrefix(l.input[l.pos:], "..") {
 		l.pos += 2
-		l.acceptRun(" \t\r\n")
+		l.skipSizeBlanks()
 		if l.accept("0123456789") {
 			numberFound = true
 			l.acceptRun("0123456789")
-			l.acceptRun(" \t\r\n")
+			l.skipSizeBlanks()
 		}
 	}
 	if !(l.accept("]") && numberFound) {
